@@ -48,7 +48,7 @@ CHECKS = {
              "diagonal (they reject others). Tie: the library's own templates instantiated over the prime field Z_p (exact) vs "
              "the extracted model over Z_p: patterns and every L/U value per block, all patterns n<=3 (quick) / n<=4 (thorough) "
              "x 4 algorithms + random n<=8, CSR/CSC x standard/vector L<=4, partial groups, large block counts, garbage prior "
-             "L/U. Oracle on the implementation: L unit lower, U upper, L*U == A over Z_p, independence from prior contents.",
+             "L/U. Oracle on the decompositions created from a matrix of the same structure with another block count; systems of 130-370 unknowns (oracle only); implementation: L unit lower, U upper, L*U == A over Z_p, independence from prior contents.",
         note="The model is at the level of logical matrix elements: the encoding of the index streams as parallel arrays with "
              "counts and the storage offsets (C19) are not part of these theorems; the tie compares every stored value. "
              "Trusted: Coq kernel, extraction, harness, Zp class.",
@@ -121,7 +121,7 @@ CHECKS = {
              "clamp, no growth after rejection, fixed cut after repeated rejections, max-steps guard, BE reductions/doubling) "
              "are the model's definitions, compared exactly with the real templates over every accept/reject word; "
              "NormalizedError and IsConverged are compared with the real functions on every shape incl. partial groups. "
-             "Oracles: controller formula, h_max / remaining interval, repeated-rejection cut, BE step-size bookkeeping.",
+             "Assembled solvers with h_start = time step: one accepted attempt (the builder hands h_start on). The norm is evaluated twice on one State with different tolerances. Oracles: controller formula, h_max / remaining interval, repeated-rejection cut, BE step-size bookkeeping.",
         note="PARTIAL proof: bounds on the H sequence are validated (tie + oracle), not theorems. "
              "Known finding: h_max <= 10*round_off is overridden by the DELTA_MIN guard.",
         technique="Coq proof (accept-rule invariant; permutation of visited slots; RMS) + scripted-policy exact tie + oracles",
@@ -138,7 +138,7 @@ CHECKS = {
              "measured by the implementation oracle of the `acc` scenario, not proved: the chain A->B->C on 1..3L+1 cells, all "
              "layouts and parameter sets, Rosenbrock against the Bateman solution (error <= (10 + accepted steps)(atol + rtol|y|)), "
              "backward Euler against the composition of closed-form implicit-Euler maps for the step sizes its controller "
-             "prescribes. Trusted: translator (dump_tables.cpp + params2coq.py), Coq kernel + vm_compute, the harness.",
+             "prescribes. The same chain fed by an emission from an empty state. A table that stops passing is diagnosed to the failing clause and residual (RosDiag). Trusted: translator (dump_tables.cpp + params2coq.py), Coq kernel + vm_compute, the harness.",
         technique="Coq proof by computation (vm_compute over Q) on tables regenerated from the source by a translator + accuracy oracle on the assembled solvers",
         ref="6 C08"),
     "C09": dict(
@@ -177,7 +177,8 @@ CHECKS = {
              "history; for Rosenbrock every stage vector is shown to be written before it is read, for any number of stages and "
              "any new-function pattern). Implementation: sequences of problems on one State with every scratch member "
              "overwritten by NaN/1e300 before every Solve vs fresh States, bit-for-bit comparison of results, statistics "
-             "and rate constants, both integrators, 32 configurations.",
+             "and rate constants, both integrators, 32 configurations; absolute and relative tolerances, air density and the sign of the "
+             "temperature change from problem to problem, every third problem arrives by copy assignment of a prepared State.",
         note="The premises (Fill(0) forgets, Factor overwrites) are properties of the containers and of the LU decomposition "
              "(C19, C03); the assembled solver's rate constants / conditions are inputs, not scratch.",
         technique="Coq proof (bisimulation invariant, both integrators) + poisoned-scratch bitwise oracle on the assembled solvers",
@@ -224,7 +225,8 @@ CHECKS = {
              "for reaction r of cell c is r's formula at c's conditions and r's own custom-parameter columns (offset = sum "
              "of the sizes before r) times r's parameterised reactants (C15_rate_constant_association_*). Tie: the real "
              "builder / State setters / CalculateRateConstants with probe rate constants of 0-3 parameters mixed with "
-             "built-in kinds vs the extracted model, whole storage compared exactly; oracle recomputes every value from the inputs.",
+             "built-in kinds vs the extracted model, whole storage compared exactly; oracle recomputes every value from the inputs; the probe conditions include the air density (neighbouring cells share T and P), "
+             "and the solver is move-assigned onto a solver for another reaction list first.",
         note="PARTIAL: that each built-in formula equals its documented expression involves libm (exp/pow/log10): it is opaque in "
              "the theorem and validated by the `ratef` family - every built-in type against a long-double transcription of its "
              "formula at random parameters (negative exponents included) and conditions, 1e-11 relative.",
